@@ -127,6 +127,9 @@ def eval_clean(case) -> Outcome:
         out.fail("C17.sut_exception:" + res, f"clean_composite_curve raised {res}: {call_sut.last_message}")
         return out
     ky, kx = [float(v) for v in res[0]], [float(v) for v in res[1]]
+    if any(not math.isfinite(v) for v in ky + kx):
+        out.fail("C17.clean_non_finite", f"cleaned curve holds a value that is not a finite number: {list(zip(kx, ky))[:6]}")
+        return out
     flat = max(H) - min(H) < 1e-6
     if flat:
         out.labels.add("flat-curve")
@@ -254,6 +257,9 @@ def eval_lin(case) -> Outcome:
         out.fail("C17.sut_exception:" + res, f"get_piecewise_data_points raised {res}: {call_sut.last_message}")
         return out
     pts = [(float(p[0]), float(p[1])) for p in res]
+    if any(not (math.isfinite(p[0]) and math.isfinite(p[1])) for p in pts):
+        out.fail("C17.lin_non_finite", f"simplified profile holds a value that is not a finite number: {pts[:6]}")
+        return out
     if len(pts) < 2:
         out.fail("C17.lin_ends", f"{n}-point profile reduced to {len(pts)} point(s)")
         return out
